@@ -21,6 +21,13 @@ def uid(prefix="v"):
     return f"{prefix}!{next(_ctr)}"
 
 
+def reset_uids():
+    """restart the fresh-name counter: called at the start of every verification target, so that the names occurring in a
+    target's obligations (and with them the solvers' heuristics) do not depend on what was verified before in the process"""
+    global _ctr
+    _ctr = itertools.count()
+
+
 class Unsupported(Exception):
     """Construct outside the engine's subset: the function is rejected, never approximated."""
 
